@@ -83,7 +83,7 @@ def explore(ctx):
         "rule": "(a) check_bracket_closed (hook wrapper) vs the model on EVERY string up to length %d over the alphabet "
                 "( ) \" ; \\ # a newline |%s; (b) random texts through both the bracket test and the reader: a text that reads "
                 "as complete forms must be submitted; (c) %d random sessions (forms from the C01/C05 generators incl. failing "
-                "ones, strings/characters/comments/|identifiers| containing parentheses, multi-byte characters before the parentheses of later lines, several forms per line, and threads: a macro, a "
+                "ones, strings/characters/comments/|identifiers| containing parentheses, multi-byte characters before the parentheses of later lines, the same submission two or three times in a row, several forms per line, and threads: a macro, a "
                 "procedure, a vector, a counter closure or an import established by one submission and used / redefined by later ones, "
                 "failing submissions in between), each fed to "
                 "the built binary over a pipe under 3 line splittings (one form per line, some breaks, many breaks): stdout "
